@@ -183,15 +183,20 @@ MANIFEST_TEXT["C12"] = {
 
 PROPS["C14"] = {
     "runs": [
-        {"pkg": "types", "harness": ["harness/c14/c14.go"], "run": "^VH_C14_",
+        {"pkg": "types", "harness": ["harness/c14/c14.go"], "run": "^VH_C14_VerifyMatchesMeaning$",
          "params": {"quick": {"depth": 1, "breadth": 2, "maxsigs": 3, "maxpres": 2}, "thorough": {"depth": 2, "breadth": 2, "maxsigs": 4, "maxpres": 3}},
          "flags": {"quick": ["-maxpaths", "200000"], "thorough": ["-maxpaths", "3000000"]},
-         "must_reach": {"VH_C14_VerifyMatchesMeaning": ["accepted", "rejected"], "VH_C14_OpaqueKeepsAddress": ["end"], "VH_C14_AddressBindsPolicy": ["end"], "VH_C14_StandardAddress": ["end"]},
-         "tv_harnesses": ["VH_C14_VerifyMatchesMeaning", "VH_C14_OpaqueKeepsAddress", "VH_C14_StandardAddress"]},
+         "must_reach": {"VH_C14_VerifyMatchesMeaning": ["accepted", "rejected"]},
+         "tv_harnesses": ["VH_C14_VerifyMatchesMeaning"]},
+        {"pkg": "types", "harness": ["harness/c14/c14.go"], "run": "^VH_C14_(OpaqueKeepsAddress|AddressBindsPolicy|StandardAddress)$",
+         "params": {"quick": {"depth": 1, "breadth": 2, "maxsigs": 3, "maxpres": 2}, "thorough": {"depth": 1, "breadth": 2, "maxsigs": 4, "maxpres": 3}},
+         "flags": {"quick": ["-maxpaths", "200000"], "thorough": ["-maxpaths", "3000000"]},
+         "must_reach": {"VH_C14_OpaqueKeepsAddress": ["end"], "VH_C14_AddressBindsPolicy": ["end"], "VH_C14_StandardAddress": ["end"]},
+         "tv_harnesses": ["VH_C14_OpaqueKeepsAddress", "VH_C14_StandardAddress"]},
     ],
     "tv_runs": {"quick": 4, "thorough": 16},
     "bounds": {"quick": "all policy trees of depth <= 1 (threshold of <= 2 leaves; unlock conditions with <= 3 keys of 3 algorithm classes) over all 7 kinds, contents symbolic; 0..3 signatures, 0..2 preimages; height, median time, sighash symbolic",
-               "thorough": "depth <= 2, breadth 2, 0..4 signatures, 0..3 preimages"},
+               "thorough": "Verify vs the evaluator: depth <= 2, breadth 2, 0..4 signatures, 0..3 preimages; opaque substitution and address binding: depth <= 1 with 0..4 signatures, 0..3 preimages (depth 2 and breadth 3 of these two did not finish in 20 minutes)"},
     "outside": ["deeper/wider trees; the 1024-node and 255-child limits are exercised only through the evaluator's mirror of the rule (trees that large are outside the bound)", "string form (ParseSpendPolicy/String): see C20"],
     "stubs": ["ed25519.Verify: ideal signature (sig == SIG(pk,msg), SIG determines pk and msg)", "sha256: ideal injective hash"],
     "assumptions": COMMON_ASSUME + IDEAL_CRYPTO,
